@@ -350,10 +350,6 @@ def judge_fast(case, impl, model):
             in_region = bool(mapper_free and not case.get("nonFast") and model.get("fsafe") and model.get("fwf")
                              and "fast:compact-conditions" not in tag_list)
             explained = m_fast is None
-            if not explained and not in_region and tag_list and any(k != "plain" for k in (case.get("enumKinds") or {}).values()):
-                # outside the proved region a mixin enum member (a str / int / float itself) can slip through a
-                # serializer meant for another option where the model's plain member raises: the named defect stands
-                explained = True
             key = attribute(what, in_region, explained, tag_list)
             fails.append((key, f"create_serializer(compact={case['compact']}, serialize_none={case['serializeNone']}) succeeded "
                           f"but {what}: {detail}; instance={json.dumps(impl.get('x'))[:200]}"))
@@ -363,7 +359,9 @@ def judge_fast(case, impl, model):
 def judge_enumvalue(case, impl, model):
     """Enum fields by name / by value over enum classes of every kind: the statement on the real code only"""
     fails = []
-    sites = sorted({f["site"] + (":by-value" if f.get("byValue") else ":by-name") for f in case["fields"] if f["site"] != "int"})
+    sites = sorted({f["site"] + ((":by-value" if f.get("byValue") else ":by-name") if f["site"] in S.ENUM_SITES else "")
+                    for f in case["fields"] if f["site"] != "int"})
+    has_const = any(f["site"].startswith("const") for f in case["fields"])
     by_value_direct = any(f["site"] in ("field", "optional", "optionalRev") and f.get("byValue") for f in case["fields"])
     set_fields = {f["name"] for f in case["fields"] if f["site"] == "set"}
     reg, tru = impl.get("regular", {}), impl.get("trusted", {})
@@ -385,10 +383,27 @@ def judge_enumvalue(case, impl, model):
         key = "crash:enum-by-value" if (what == "trusted-raises" and direct_hit and tru.get("err") == "KeyError") \
             else f"enum-kinds:{what}:" + "+".join(sites)[:80]
         fails.append((key, f"Enum fields {sites} over {case['enumKinds']}: {what}: doc={impl.get('doc')} regular={reg} trusted={tru}"))
+    if "ftd" in impl:
+        w2 = None
+        if "ok" not in impl["ftd"]:
+            w2 = "trusted-raises"
+        elif impl.get("ftd_eq") != [True, True]:
+            w2 = "not-equal"
+        elif not impl.get("ftd_ser_same"):
+            w2 = "serialization-differs"
+        if w2:
+            only_consts = has_const and w2 != "trusted-raises" and impl.get("ftd_only_consts") is True
+            key = "constants-not-set:from-trusted-data" if only_consts else f"probe:from-trusted:{w2}:" + "+".join(sites)[:80]
+            fails.append((key, f"from_trusted_data(None, **kw) vs the validated constructor, fields {sites}: {w2}: {impl.get('ftd')}"))
     if impl.get("regular_ser_ok") and impl.get("fast_same") is False:
-        fails.append(("enum-kinds:fast-differs:" + "+".join(sites)[:80],
-                      f"fast serialize() differs for Enum fields {sites} over {case['enumKinds']}: "
-                      f"regular={impl.get('fast_regular')} fast={impl.get('fast')}"))
+        site_of = {f["name"]: f["site"] for f in case["fields"]}
+        diff_sites = {site_of.get(k, "?") for k in impl.get("fast_diff_keys") or ["?"]}
+        fkeys = [{"constEnum": "fast:constant-enum-raw", "decimal": "fast:decimal-raw"}.get(
+                     st, "enum-kinds:fast-differs:" + "+".join(sites)[:80]) for st in sorted(diff_sites)]
+        for fkey in sorted(set(fkeys)):
+            fails.append((fkey,
+                          f"fast serialize() differs at keys {impl.get('fast_diff_keys')} for fields {sites} over {case['enumKinds']}: "
+                          f"regular={impl.get('fast_regular')} fast={impl.get('fast')}"))
     return None, fails
 
 
